@@ -12,7 +12,7 @@ Fixpoint all_pref (P : fs -> option path -> Prop) (ops : list op) (s : fs) (h : 
   | o :: tl => all_pref P tl (apply_op s o) (apply_h h o)
   end.
 
-(* the path whose node (or the handler register) an operation may change *)
+(* the key whose node (or the handler register) an operation may change *)
 Definition modifies (o : op) : option path :=
   match o with
   | OCreat p _ => Some p
@@ -31,11 +31,11 @@ Definition unlinked (h : option path) (s : fs) : fs :=
   | None => s
   end.
 
-(* "the data of source src (original bytes b0) is recoverable in state s":
-   the source still holds b0, or its destination exists, is closed, and holds bytes
+(* "the data of a source (original bytes b0, stored under key org) is recoverable in state s":
+   org still holds b0, or the destination exists, is closed, and holds bytes
    related to b0 by rel (rel = "decodes to" when compressing, "is the decoding of" when decompressing) *)
-Definition safe (rel : data -> data -> Prop) (src : path) (b0 : data) (od : option path) (s : fs) : Prop :=
-  (exists f, s src = Reg f /\ f_bytes f = b0) \/
+Definition safe (rel : data -> data -> Prop) (org : path) (b0 : data) (od : option path) (s : fs) : Prop :=
+  (exists f, s org = Reg f /\ f_bytes f = b0) \/
   (exists d b, od = Some d /\ s d = Reg (mkFile b true) /\ rel b b0).
 
 (* the codec is right when it reports success on this source *)
@@ -49,13 +49,18 @@ Definition dsel_path (d : dsel) : option path :=
   | _ => None
   end.
 
-(* well-formed invocation: sources pairwise distinct, no destination is also a source,
-   destinations of distinct sources are distinct *)
-Definition wf (i : inv) : Prop :=
-  NoDup (i_srcs i) /\
-  (forall a b d p, In a (i_srcs i) -> In b (i_srcs i) -> dsel_of i b = Some d -> dsel_path d = Some p -> a <> p) /\
-  (forall a b p, In a (i_srcs i) -> In b (i_srcs i) -> a <> b ->
-                 dst_of i a = Some p -> dst_of i b <> Some p).
+(* well-formed list of names in file system s: names pairwise distinct, no destination is also a source,
+   destinations of distinct sources are distinct, no destination name is a symbolic link, and a source given
+   through a symbolic link points at a key that is neither a source nor a destination *)
+Definition wf (i : inv) (names : list path) (s : fs) : Prop :=
+  NoDup names /\
+  (forall a b d p, In a names -> In b names -> dsel_of i names b = Some d -> dsel_path d = Some p -> a <> p) /\
+  (forall a b p, In a names -> In b names -> a <> b ->
+                 dst_of i names a = Some p -> dst_of i names b <> Some p) /\
+  (forall b d p, In b names -> dsel_of i names b = Some d -> dsel_path d = Some p -> is_lnk (s p) = false) /\
+  (forall a t, In a names -> s a = Lnk t ->
+               ~ In t names /\
+               forall b d p, In b names -> dsel_of i names b = Some d -> dsel_path d = Some p -> t <> p).
 
 Definition is_unlink_src (o : op) : bool := match o with OUnlinkSrc _ => true | _ => false end.
 
@@ -76,3 +81,8 @@ Fixpoint ok_payload (items : list fitem) : list data :=
   | FrOk cs :: tl => cs ++ ok_payload tl
   | _ => []
   end.
+
+(* no injected fault on this file *)
+Definition no_fault (v : verdict) : Prop :=
+  v_wfail v = None /\ v_open_ok v = true /\ v_ovw_unlink_ok v = true /\ v_creat_ok v = true /\
+  v_close_ok v = true /\ v_art_unlink_ok v = true /\ v_close_src_ok v = true /\ v_rm_ok v = true.
